@@ -190,21 +190,56 @@ class Interp:
         self.frames = []
         self.loop_ordinals = {}
         self._cache = {}
+        self.S = None
+        self.silent = False
         self.live_olds = []
         self.live_heap = None
 
     # ---- path-local solver -------------------------------------------------
     def new_path(self):
-        self.S = z3.Solver()
-        self.S.set("timeout", self.timeout_ms)
+        """Start (re-)executing a path.  The solver persists across the paths of one function:
+        scopes pushed at decision points are popped back to the branching decision, and the
+        shared prefix is replayed silently (python state only, no solver work)."""
+        ex = self.explorer
+        prefix = ex.decisions
+        if self.S is None:
+            self.S = z3.Solver()
+            self.S.set("timeout", self.timeout_ms)
+            self.str_arrays = {}
+            self.base_scope = {}
+            self.theory_stack = []
+            self.world.theory_reset(self)
         self.pc = []
         self.namer = sym.Namer()
         self.oid_counter = 0
-        self.theory_seen = set()
         self.live_olds = []
         self.live_heap = None
-        self.str_arrays = {}
-        self.world.theory_reset(self)
+        if prefix:
+            self.silent_until = len(prefix) - 1
+            self.silent = True
+            target = self.base_scope[self.silent_until]
+            while self.S.num_scopes() > target:
+                self.S.pop()
+                self.world.theory_restore(self, self.theory_stack.pop())
+        else:
+            self.silent_until = 0
+            self.silent = False
+
+    def open_scope(self):
+        """Called when a decision is consumed (index = explorer.pos before consumption)."""
+        d = self.explorer.pos
+        if self.silent:
+            if d < self.silent_until:
+                return
+            self.silent = False
+        self.base_scope[d] = self.S.num_scopes()
+        self.theory_stack.append(self.world.theory_snapshot(self))
+        self.S.push()
+
+    def sadd(self, fact):
+        """Add a fact to the solver (skipped while silently replaying a shared prefix)."""
+        if not self.silent:
+            self.S.add(fact)
 
     def fresh_oid(self):
         self.oid_counter += 1
@@ -216,6 +251,8 @@ class Interp:
         if z3.is_true(fact):
             return
         self.pc.append(fact)
+        if self.silent:
+            return
         self.S.add(fact)
         self.world.theory_saturate(self, [fact])
 
@@ -240,7 +277,7 @@ class Interp:
         return r, model
 
     def feasible(self, extra=()):
-        if not extra and not self.explorer.at_frontier():
+        if self.silent or (not extra and not self.explorer.at_frontier()):
             return True   # replaying: an earlier run got past this point
         r, _ = self._check(list(extra))
         return r != z3.unsat
@@ -254,10 +291,12 @@ class Interp:
             return False
         ex = self.explorer
         if not ex.at_frontier():
+            self.open_scope()
             d = ex.replay()
         else:
             ft = self.feasible([cond])
             ff = self.feasible([z3.Not(cond)])
+            self.open_scope()
             if ft and ff:
                 d = ex.record(True, [False])
             elif ft:
@@ -273,6 +312,7 @@ class Interp:
     def choose(self, n, label=""):
         """Non-deterministic choice among n options (all explored)."""
         ex = self.explorer
+        self.open_scope()
         if not ex.at_frontier():
             return ex.replay()
         return ex.record(0, list(range(1, n)))
@@ -291,7 +331,7 @@ class Interp:
         g = z3.simplify(goal)
         if z3.is_true(g):
             return True
-        if not self.explorer.at_frontier():
+        if self.silent or not self.explorer.at_frontier():
             ob.paths -= 1
             return True   # replaying: this instance was decided by the run that explored the prefix
         t0 = time.time()
